@@ -13,6 +13,8 @@ import RotoV.Lemmas.ScopeFrame
 import RotoV.Lemmas.ScopeDiscovery
 import RotoV.Lemmas.ScopeBuild
 import RotoV.Lemmas.ScopeExport
+import RotoV.Lemmas.ScopeWitness
+import RotoV.Lemmas.ScopeImports
 
 namespace RotoV.C13
 open RotoV.Scope
@@ -40,7 +42,13 @@ theorem lookup_nonrecursive (g : Graph) (s : Nat) (x : Name) :
   simp only [Graph.resolve, Graph.resolveName]
   cases g.decl ⟨s, x⟩ <;> simp
 
-example : ∃ g : Graph, WF g ∧ 0 < g.scopes.length := ⟨Graph.new, new_wf, by decide⟩
+example : ∃ chain, Ancestors witnessGraph 5 chain ∧
+    witnessGraph.resolve 5 3 true = firstHit witnessGraph 3 chain :=
+  lookup_spec witnessGraph witness_inv.wf 5 (by decide) 3
+example : WF (witnessGraph.wrap 5 (.block 0)).1 :=
+  wrap_keeps_wf witnessGraph witness_inv.wf 5 (.block 0) (by decide)
+example : witnessGraph.resolve 1 6 false = .ok none := by
+  rw [lookup_nonrecursive]; decide
 
 /-- **The hypotheses of T1–T3 are not assumptions about real graphs**: starting
     from `ScopeGraph::new()`, after the runtime's modules (`rt`) and the whole
@@ -62,6 +70,12 @@ theorem lookup_total (g : Graph) (wf : WF g) (iok : ImportsOk g) (s : Nat)
   obtain ⟨chain, hc, heq⟩ := lookup_spec g wf s hs x
   rw [heq]
   exact firstHit_no_panic iok x chain (ancestors_valid hc) p
+
+example : ∃ g0 m0 out, declareModules [] [] Graph.new = .ok (g0, m0) ∧
+    checkModuleTree g0 witnessMods = .ok out :=
+  ⟨Graph.new, [], _, rfl, rfl⟩
+example (p : Site) : witnessGraph.resolve 5 6 true ≠ .panic p :=
+  lookup_total witnessGraph witness_inv.wf witness_inv.iok 5 (by decide) 6 p
 
 /-! ## T2 — path_spec -/
 
@@ -109,7 +123,25 @@ theorem super_spec (g : Graph) (wf : WF g) (mok : ModulesOk g) (n : Nat) (s : Na
   simp only [resolveModulePart]
   exact super_n wf mok n s chain m name pm x rest hc he hx
 
-example : pathSpec Graph.new [0] 5 [] = .err .notDefined := by decide
+-- `aa.ff` from a function of `pkg`: first segment found in `pkg`, second among `pkg.aa`'s members
+example : resolveModulePart witnessGraph 5 [3, 6] = pathSpec witnessGraph [5, 1, 0] 3 [6] :=
+  path_spec _ witness_inv.wf 5 _ witness_chain 3 [6] (by decide)
+example : (match resolveModulePart witnessGraph 5 [3, 6] with
+    | .ok r => some r.decl.kind | _ => none) = some (.fn 101) := by decide
+-- `bb.ff`: `ff` is not a member of `pkg.bb` (it is one of `pkg.bb.aa`)
+example : resolveModulePart witnessGraph 5 [4, 6] = .err .notDefined := by decide
+example : resolveModulePart witnessGraph 5 [7] = .err .notDefined :=
+  unreachable_first_is_error _ witness_inv.wf 5 _ witness_chain 7 [] (by decide) (by decide)
+-- two `super`s from `pkg.bb.aa` land in `pkg`; three are too many
+example : resolveModulePart witnessGraph 4 [SUPER, SUPER, 3, 6] =
+    (match nthUp witnessGraph 2 4 with
+      | none => .err .tooManySuper
+      | some p => segments witnessGraph p 3 [6] true) :=
+  super_spec witnessGraph witness_inv.wf witness_inv.mok 1 4 [4, 0] 4 ⟨3, 3⟩ (some 3) 3 [6]
+    witness_chain4 (by decide) (by decide)
+example : (match resolveModulePart witnessGraph 4 [SUPER, SUPER, 3, 6] with
+    | .ok r => some r.decl.kind | _ => none) = some (.fn 101) := by decide
+example : resolveModulePart witnessGraph 4 [SUPER, SUPER, SUPER, 3] = .err .tooManySuper := by decide
 
 /-! ## T3 — no_interference -/
 
@@ -129,6 +161,13 @@ theorem no_interference (g g' : Graph) (wf : WF g) (iok : ImportsOk g) (s : Nat)
         resolveName_eq_firstHit wf x (s + 1) s chain (Nat.lt_succ_self s) hc]
   exact firstHit_insert iok h x chain off
 
+-- declaring another `ff` in `pkg.bb` (scope 3) does not change what `ff`/`aa` mean in scope 5
+example : ∃ g', witnessGraph.insertDecl ⟨3, 6⟩ (.fn 7) none = .ok g' ∧
+    g'.resolve 5 3 true = witnessGraph.resolve 5 3 true := by
+  refine ⟨_, rfl, ?_⟩
+  exact no_interference witnessGraph _ witness_inv.wf witness_inv.iok 5 _ witness_chain 3 ⟨3, 6⟩
+    (.fn 7) none rfl (Or.inl (by decide))
+
 /-- Shadowing: when the name already resolves within the inner part `pre` of the
     chain, a same-named item declared further out (in `post`) changes nothing. -/
 theorem no_interference_outer (g g' : Graph) (wf : WF g) (iok : ImportsOk g) (s : Nat)
@@ -145,6 +184,13 @@ theorem no_interference_outer (g g' : Graph) (wf : WF g) (iok : ImportsOk g) (s 
   apply firstHit_prefix
   rw [firstHit_insert iok h x pre (Or.inr off)]
   exact hit
+
+-- `aa` is found in `pkg` (scope 1); a new `aa` in the root scope does not shadow it
+example : ∃ g' d, witnessGraph.insertDecl ⟨0, 3⟩ (.fn 7) none = .ok g' ∧
+    g'.resolve 5 3 true = .ok (some d) := by
+  refine ⟨_, ⟨⟨1, 3⟩, .module, some 2⟩, rfl, ?_⟩
+  exact no_interference_outer witnessGraph _ witness_inv.wf witness_inv.iok 5 [5, 1] [0]
+    witness_chain 3 _ (by decide) ⟨0, 3⟩ (.fn 7) none rfl (by decide)
 
 /-- **T3 for whole paths.** A new item does not change what a path means unless
     it is declared in a scope on the lookup path of the first segment or in one
@@ -168,25 +214,18 @@ theorem no_interference_path (g g' : Graph) (wf : WF g) (iok : ImportsOk g) (s :
     | none => rfl
     | some d => exact walkMembers_insert h rest d id (off₂ d hf)
 
+-- a new `ff` in `pkg.bb.aa`'s sibling `pkg.bb` (scope 3) does not change `aa.ff`
+example : ∃ g', witnessGraph.insertDecl ⟨3, 6⟩ (.fn 7) none = .ok g' ∧
+    resolveModulePart g' 5 [3, 6] = resolveModulePart witnessGraph 5 [3, 6] := by
+  refine ⟨_, rfl, ?_⟩
+  exact no_interference_path witnessGraph _ witness_inv.wf witness_inv.iok 5 _ witness_chain 3 [6]
+    (by decide) ⟨3, 6⟩ (.fn 7) none rfl (by decide)
+    (by intro d hd; have : d = ⟨⟨1, 3⟩, .module, some 2⟩ := by
+          have h2 : firstHit witnessGraph 3 [5, 1, 0] = .ok (some ⟨⟨1, 3⟩, .module, some 2⟩) := by decide
+          rw [h2] at hd; cases hd; rfl
+        subst this; decide)
+
 /-! ## T4 — import order -/
-
-/-- the witness tree: `pkg { aa { fn ff #101 }  bb { aa { fn ff #102 } } }`
-    (identifiers: aa = 3, bb = 4, ff = 6) -/
-def witnessMods : List Module :=
-  [ ⟨PKG, none, []⟩,
-    ⟨3, some 0, [.fn 6 101 (.mk [] [])]⟩,
-    ⟨4, some 0, []⟩,
-    ⟨3, some 2, [.fn 6 102 (.mk [] [])]⟩ ]
-
-/-- the graph after `declare_modules`, plus the scope (5) of a function of `pkg` -/
-def witnessGraph : Graph :=
-  match declareModules witnessMods [] Graph.new with
-  | .ok (g, _) => (g.wrap 1 (.function 10)).1
-  | _ => Graph.new
-
-def kindOf : Res (Option Decl) → Option DKind
-  | .ok (some d) => some d.kind
-  | _ => none
 
 /-
   T4 as designed — `import_order_indep`: for every scope and every permutation
@@ -207,6 +246,68 @@ theorem import_order_dep :
              kindOf (g₁.resolve 5 6 true) = some (.fn 102) ∧
              kindOf (g₂.resolve 5 6 true) = some (.fn 101) := by
   refine ⟨WF_of_WFb (by decide), _, _, rfl, rfl, ?_, ?_⟩ <;> decide
+
+/-
+  What does hold (`import_order_indep_partial`): the order is irrelevant for
+  lists whose members do not depend on each other.  Missing for the full
+  statement: nothing can be added — it is false exactly when the first segment
+  of one import is the alias another import of the same list introduces
+  (dependent imports are the reason the retain loop exists; they are resolved
+  in an order-dependent way when that segment is also visible from outside).
+-/
+
+/-- **T4, the part that is true.** Let every path of the list resolve in the
+    initial graph (to `tgt p`), let no path start — after its `super`s — with the
+    alias that a path of the list introduces, and let the aliases be distinct and
+    new in the scope.  Then `imports` succeeds on the list and on every
+    permutation of it, and the two resulting graphs differ at most in the
+    *order* of the scope's import table: same declarations, same other scopes,
+    same kind / parent, and the same result for every alias lookup. -/
+theorem import_order_indep_partial (g : Graph) (s : Nat) (sc : Scope) (hs : g.scopes[s]? = some sc)
+    (tgt : Path → RName) (ps ps' : List Path) (hperm : ps'.Perm ps)
+    (hres : ∀ p ∈ ps, ∃ r, resolveModulePart g s p = .ok r ∧ r.rest = [] ∧ r.decl.name = tgt p)
+    (hind : ∀ p ∈ ps, ∀ q ∈ ps, firstSeg p ≠ some (tgt q).ident)
+    (hnd : (ps.map (fun p => (tgt p).ident)).Nodup)
+    (hfresh : ∀ p ∈ ps, sc.imports.lookup (tgt p).ident = none) :
+    ∃ g₁ g₂, imports g s ps = .ok g₁ ∧ imports g s ps' = .ok g₂ ∧ g₁.decls = g₂.decls ∧
+      (∀ i, i ≠ s → g₁.scopes[i]? = g₂.scopes[i]?) ∧
+      ∃ sc₁ sc₂ : Scope, g₁.scopes[s]? = some sc₁ ∧ g₂.scopes[s]? = some sc₂ ∧
+        sc₁.kind = sc₂.kind ∧ sc₁.parent = sc₂.parent ∧
+        ∀ x, sc₁.imports.lookup x = sc₂.imports.lookup x := by
+  have h1 := imports_independent hs tgt ps hres hind hnd hfresh
+  have h2 := imports_independent hs tgt ps'
+    (fun p hp => hres p (hperm.mem_iff.mp hp))
+    (fun p hp q hq => hind p (hperm.mem_iff.mp hp) q (hperm.mem_iff.mp hq))
+    ((hperm.map _).nodup_iff.mpr hnd)
+    (fun p hp => hfresh p (hperm.mem_iff.mp hp))
+  refine ⟨_, _, h1, h2, rfl, ?_, ?_⟩
+  · intro i hi
+    rw [addImports_scope hs, addImports_scope hs]
+    simp [Ne.symm hi]
+  · refine ⟨{ sc with imports := sc.imports ++ entries (ps.map tgt) },
+      { sc with imports := sc.imports ++ entries (ps'.map tgt) },
+      by rw [addImports_scope hs]; simp, by rw [addImports_scope hs]; simp, rfl, rfl, ?_⟩
+    intro x
+    apply lookup_append_congr
+    apply lookup_perm
+    · exact ((hperm.map tgt).map _).symm
+    · simpa [entries, List.map_map, Function.comp_def] using hnd
+
+-- `import aa.ff; import pkg.bb;` in the function scope of the witness: independent, any order
+example : ∃ g₁ g₂, imports witnessGraph 5 [[3, 6], [PKG, 4]] = .ok g₁ ∧
+    imports witnessGraph 5 [[PKG, 4], [3, 6]] = .ok g₂ ∧ g₁.decls = g₂.decls := by
+  obtain ⟨g₁, g₂, h1, h2, h3, _⟩ := import_order_indep_partial witnessGraph 5
+    ⟨.function 10, some 1, []⟩ (by decide)
+    (fun p => if p = [PKG, 4] then ⟨1, 4⟩ else ⟨2, 6⟩) [[3, 6], [PKG, 4]] [[PKG, 4], [3, 6]]
+    (List.Perm.swap _ _ _)
+    (by
+      intro p hp
+      simp only [List.mem_cons, List.not_mem_nil, or_false] at hp
+      rcases hp with rfl | rfl
+      · exact ⟨⟨6, ⟨⟨2, 6⟩, .fn 101, none⟩, []⟩, by decide, rfl, by decide⟩
+      · exact ⟨⟨4, ⟨⟨1, 4⟩, .module, some 3⟩, []⟩, by decide, rfl, by decide⟩)
+    (by decide) (by decide) (by decide)
+  exact ⟨g₁, g₂, h1, h2, h3⟩
 
 /-! ## T5 — export_names -/
 
@@ -249,6 +350,15 @@ theorem export_injective (rt ms : List Module) (g0 : Graph) (m0 : List Nat) (out
   subst h1
   simp only [List.cons.injEq, and_true] at h2
   exact ⟨pathTo_injective (uniq_of_minfo hi inv.mok) hpi hpj, h2⟩
+
+example : ∃ path s, PathTo witnessMods 3 path ∧
+    (match checkModuleTree Graph.new witnessMods with | .ok out => out.mods[3]? | _ => none) = some s :=
+  ⟨[PKG, 4, 3], 4, .child (m := ⟨3, some 2, [.fn 6 102 (.mk [] [])]⟩) rfl rfl
+    (.child (m := ⟨4, some 0, []⟩) rfl rfl (.root (m := ⟨PKG, none, []⟩) rfl rfl)), by decide⟩
+-- `pkg.bb.aa.ff`
+example : (match checkModuleTree Graph.new witnessMods with
+    | .ok out => fullName out.g ⟨4, 6⟩ | _ => .err .notDefined) =
+    .ok [.id PKG, .id 4, .id 3, .id 6] := by decide
 
 /-! ## T6 — discovery -/
 
